@@ -38,6 +38,7 @@ fn main() {
             "--len" => len = v.parse().unwrap(),
             "--seed" => seed = v.parse().unwrap(),
             "--mode" => mode = v,
+            "--fixtures" => load_fixtures(&v),
             x => {
                 eprintln!("unknown option {x}");
                 std::process::exit(2);
@@ -72,6 +73,17 @@ fn main() {
         }
     }
     let mut rng = Rng::new(seed);
+    if mode == "mkfixtures" {
+        // record states as the current tree writes them (tools/mkfixtures.sh, on the unchanged tree only)
+        match sys.as_str() {
+            "cw20" => cw20::make_fixtures(&mut rng, random as usize, len, &out_path),
+            _ => {
+                eprintln!("no fixtures for {sys}");
+                std::process::exit(2);
+            }
+        }
+        return;
+    }
     if sys == "paging" {
         // --mode sizes:0,1,9,... selects the listing sizes
         let sizes: Vec<usize> = mode.strip_prefix("sizes:").unwrap_or("0,1,9,10,11,29,30,31,45").split(',').map(|x| x.parse().unwrap()).collect();
